@@ -167,15 +167,25 @@ def run_probes(repo, probes, tag='q', jobs=16):
                        capture_output=True, text=True, timeout=7200)
     err = p.stderr
     res = {}
+    # per-bin diagnostics: the block that ends with `error: could not compile `g4probe` (bin "NAME")`
+    why = {}
+    seg = []
+    for line in err.split('\n'):
+        m = re.match(r'error: could not compile `g4probe` \(bin "([^"]+)"\)', line)
+        if m:
+            text = '\n'.join(seg)
+            a = re.search(r'evaluation panicked: ([^\n]*)', text)
+            b = re.search(r'evaluation of `([^`]*)` failed', text)
+            c = re.search(r'^error(\[E\d+\])?: ([^\n]*)', text, re.M)
+            why[m.group(1)] = ((a.group(1) if a else (c.group(2) if c else 'compile error'))
+                               + (' [evaluating %s]' % b.group(1) if b else ''))
+            seg = []
+        else:
+            seg.append(line)
     for k, (bn, src) in srcs.items():
         exe = os.path.join(tgt, 'debug', bn)
         if not os.path.exists(exe):
-            m = re.search(r'(error[^\n]*\n(?:[^\n]*\n){0,12}?[^\n]*%s\.rs[^\n]*\n(?:[^\n]*\n){0,6})' % re.escape(bn), err)
-            detail = 'compile error'
-            mm = re.search(r'(evaluation of `[^`]*` failed|evaluation panicked[^\n]*|Can not construct[^\n]*)', m.group(1) if m else '')
-            if mm:
-                detail = mm.group(1)
-            res[k] = ('compile-error', detail[:200], src)
+            res[k] = ('compile-error', why.get(bn, 'compile error')[:200], src)
             continue
         try:
             q = subprocess.run([exe], capture_output=True, text=True, timeout=60)
@@ -207,7 +217,13 @@ def select(tier, rng):
             pairs = ILL if n in ('MAX',) else [ILL[(k + rng.randrange(len(ILL))) % len(ILL)]]
             sel += [(n, e, b, l) for b, l in pairs]
         sel += [(n, e) + rng.choice(ILL) for n, e in rot]
-        sel += [('MAX', ITEMS[0][1], 65, 2), ('from_limbs', ITEMS[4][1], 65, 2)]   # controls: must yield a value
+        # controls: the same expressions on a well-formed type must yield a value (else the probe itself is broken
+        # and its compile error would be misread as a rejection)
+        names = []
+        for n, e, b, l in sel:
+            if n not in names:
+                names.append(n)
+        sel += [(n, dict(ITEMS)[n], 65, 2) for n in names]
         return sel
     sel = [(n, e, b, l) for n, e in ITEMS for b, l in ILL]
     sel += [(n, e, b, l) for n, e in ITEMS for b, l in CONTROL[:1]]
